@@ -39,8 +39,33 @@ Case(s) == LET full == <<"v">> \o s
            [stack |-> full, T |-> b.T, v |-> b.v,
             dbus |-> Marshal(b.T, b.v, 0, TRUE), gv |-> GvMarshal(b.T, b.v, 0, TRUE)]
 
+(* Wide cases: Depths!Leave.  A container holding w equal siblings of kind kd (each around a byte), itself inside the
+   nesting pre.  The deepest path is pre \o <<cont, kd>>; leaving a sibling must give its count back, so the verdict is
+   that of the deepest path however many siblings precede it (a counter that leaks on Leave refuses a later sibling). *)
+RECURSIVE BuildL(_,_)
+BuildL(s, leaf) ==
+  IF s = <<>> THEN leaf
+  ELSE LET in == BuildL(Tail(s), leaf) IN
+    CASE Head(s) = "a" -> [T |-> [k |-> "a", e |-> in.T], v |-> [a |-> <<in.v>>]]
+      [] Head(s) = "r" -> [T |-> [k |-> "r", f |-> <<in.T>>], v |-> [r |-> <<in.v>>]]
+      [] Head(s) = "v" -> [T |-> [k |-> "v"], v |-> [t |-> in.T, v |-> in.v]]
+WideLeaf(cont, kd, w) ==
+  LET in == Build(<<kd>>) IN
+  IF cont = "a" THEN [T |-> [k |-> "a", e |-> in.T], v |-> [a |-> [i \in 1..w |-> in.v]]]
+  ELSE [T |-> [k |-> "r", f |-> [i \in 1..w |-> in.T]], v |-> [r |-> [i \in 1..w |-> in.v]]]
+WidePres == {<<>>, Rep("v", 61), Rep("v", 60), Rep("r", 30) \o Rep("v", 5), Rep("a", 30) \o Rep("v", 5)}
+WideCase(pre, cont, kd, w) ==
+  LET b == BuildL(<<"v">> \o pre, WideLeaf(cont, kd, w)) IN
+  [stack |-> <<"v">> \o pre \o <<cont, kd>>, wide |-> w, T |-> b.T, v |-> b.v,
+   dbus |-> Marshal(b.T, b.v, 0, TRUE), gv |-> GvMarshal(b.T, b.v, 0, TRUE)]
+Kinds3 == {"a", "r", "v"}
+\* (encoded as a sequence of strings like the other cases: TLC cannot keep records and sequences in one set of states)
+WNum(x) == CASE x = "2" -> 2 [] x = "3" -> 3 [] x = "66" -> 66
+Wides == {<<"W", c, kd, w>> \o p : p \in WidePres, c \in {"a", "r"}, kd \in Kinds3, w \in {"2", "3", "66"}}
+IsWide(x) == Len(x) > 0 /\ x[1] = "W"
+
 VARIABLE s
-Init == s \in {x \in Stacks : Len(x) <= 70}
+Init == s \in {x \in Stacks : Len(x) <= 70} \cup Wides
 Next == UNCHANGED s
-Emit == PrintT(<<"CASE", ToJson(Case(s))>>)
+Emit == PrintT(<<"CASE", ToJson(IF IsWide(s) THEN WideCase(SubSeq(s, 5, Len(s)), s[2], s[3], WNum(s[4])) ELSE Case(s))>>)
 =============================================================================
